@@ -20,7 +20,7 @@ the last poll (reset by `poll`), exactly the harness' `wakes f` observation.
 Ghost (written, never read by a transition): `sent recvd returned dropped offered` token
 histories, `ar` / `asg` = records CASed to SUCCESS whose owner has not yet re-entered
 `try_recv_core` / `try_send_core` (A_r / A_s of DESIGN Appendix A.5), `wakeBy` = which closing
-agent holds the deferred wake of a record.
+agent holds the deferred wake of a record, `kind` = send-side / receive-side record.
 
 The model is for capacity ≥ 1 (`bounded(0)` panics in the constructor); batch forms and the
 `Stream` impl are not modelled.
@@ -125,12 +125,13 @@ structure State where
   ar : List Nat
   asg : List Nat
   wakeBy : Nat → Nat
+  kind : Nat → Bool             -- ghost: the record was created by a send-side operation
 
 def init (cap : Nat) : State :=
   { cap := cap, queue := [], senders := 1, receivers := 1, wss := [], was := [], wsr := [], war := [],
     st := fun _ => .waiting, owner := fun _ => 0, wakes := fun _ => 0, pc := fun _ => .idle, nextRec := 0,
     sent := [], recvd := [], returned := [], dropped := [], offered := [], ar := [], asg := [],
-    wakeBy := fun _ => 0 }
+    wakeBy := fun _ => 0, kind := fun _ => false }
 
 def upd {α} (f : Nat → α) (i : Nat) (a : α) : Nat → α := fun j => if j = i then a else f j
 def bump (w : Nat → Nat) (a : Nat) : Nat → Nat := fun j => if j = a then w a + 1 else w j
@@ -196,14 +197,15 @@ def stepSReg (s : State) (t v r : Nat) : State :=
     { s with dropped := s.dropped ++ [v], pc := upd s.pc t (.done (.sendClosedDrop v)) }
   else
     let r' := s.nextRec
-    { s with nextRec := r' + 1, st := upd s.st r' .waiting, owner := upd s.owner r' t,
+    { s with nextRec := r' + 1, st := upd s.st r' .waiting, owner := upd s.owner r' t, kind := upd s.kind r' true,
              wss := s.wss ++ [r'], pc := upd s.pc t (.sWait v r') }
 
 def stepSWait (s : State) (t v r : Nat) : State :=
   match s.st r with
   | .success => { s with pc := upd s.pc t (.sUnl v r false) }
   | .closed => { s with pc := upd s.pc t (.sUnl v r true) }
-  | _ => { s with pc := upd s.pc t (.sPark v r) }
+  | .waiting => { s with pc := upd s.pc t (.sPark v r) }
+  | .cancelled => { s with pc := upd s.pc t (.sPark v r) }
 
 def stepSPark (s : State) (t v r : Nat) : Option State :=
   if 0 < s.wakes t then some { s with wakes := upd s.wakes t 0, pc := upd s.pc t (.sWait v r) } else none
@@ -236,14 +238,15 @@ def stepRReg (s : State) (t r : Nat) : State :=
   else if s.senders = 0 then { s with pc := upd s.pc t (.done .recvDisc) }
   else
     let r' := s.nextRec
-    { s with nextRec := r' + 1, st := upd s.st r' .waiting, owner := upd s.owner r' t,
+    { s with nextRec := r' + 1, st := upd s.st r' .waiting, owner := upd s.owner r' t, kind := upd s.kind r' false,
              wsr := s.wsr ++ [r'], pc := upd s.pc t (.rWait r') }
 
 def stepRWait (s : State) (t r : Nat) : State :=
   match s.st r with
   | .success => { s with pc := upd s.pc t (.rTry r) }
   | .closed => { s with pc := upd s.pc t (.rUnl r) }
-  | _ => { s with pc := upd s.pc t (.rPark r) }
+  | .waiting => { s with pc := upd s.pc t (.rPark r) }
+  | .cancelled => { s with pc := upd s.pc t (.rPark r) }
 
 def stepRPark (s : State) (t r : Nat) : Option State :=
   if 0 < s.wakes t then some { s with wakes := upd s.wakes t 0, pc := upd s.pc t (.rWait r) } else none
@@ -280,7 +283,9 @@ def stepToRetry (s : State) (t r : Nat) : State :=
 def stepToCas (s : State) (t r : Nat) : State :=
   match s.st r with
   | .waiting => { s with st := upd s.st r .cancelled, pc := upd s.pc t (.toUnl r) }
-  | _ => { s with pc := upd s.pc t (.toFin r) }
+  | .success => { s with pc := upd s.pc t (.toFin r) }
+  | .closed => { s with pc := upd s.pc t (.toFin r) }
+  | .cancelled => { s with pc := upd s.pc t (.toFin r) }
 
 def stepToUnl (s : State) (t r : Nat) : State :=
   { s with wsr := s.wsr.filter (· ≠ r), pc := upd s.pc t (.done .recvTimeout) }
@@ -413,21 +418,24 @@ def stepCall (s : State) (t : Nat) (op : Op) : Option State :=
     | .send v =>
       if v ∈ s.offered then none else
       some { s with offered := s.offered ++ [v], nextRec := r + 1, st := upd s.st r .waiting, owner := upd s.owner r t,
-                    pc := upd s.pc t (.sTry v r) }
+                    kind := upd s.kind r true, pc := upd s.pc t (.sTry v r) }
     | .trySend v =>
       if v ∈ s.offered then none else
       some { s with offered := s.offered ++ [v], pc := upd s.pc t (.tsTry v) }
     | .recv =>
-      some { s with nextRec := r + 1, st := upd s.st r .waiting, owner := upd s.owner r t, pc := upd s.pc t (.rTry r) }
+      some { s with nextRec := r + 1, st := upd s.st r .waiting, owner := upd s.owner r t, kind := upd s.kind r false,
+                    pc := upd s.pc t (.rTry r) }
     | .tryRecv => some { s with pc := upd s.pc t .trTry }
     | .recvTimeout0 =>
-      some { s with nextRec := r + 1, st := upd s.st r .waiting, owner := upd s.owner r t, pc := upd s.pc t (.toTry r) }
+      some { s with nextRec := r + 1, st := upd s.st r .waiting, owner := upd s.owner r t, kind := upd s.kind r false,
+                    pc := upd s.pc t (.toTry r) }
     | .sendFut v =>
       if v ∈ s.offered then none else
       some { s with offered := s.offered ++ [v], nextRec := r + 1, st := upd s.st r .waiting, owner := upd s.owner r t,
-                    pc := upd s.pc t (.asNew v r) }
+                    kind := upd s.kind r true, pc := upd s.pc t (.asNew v r) }
     | .recvFut =>
-      some { s with nextRec := r + 1, st := upd s.st r .waiting, owner := upd s.owner r t, pc := upd s.pc t (.arNew r) }
+      some { s with nextRec := r + 1, st := upd s.st r .waiting, owner := upd s.owner r t, kind := upd s.kind r false,
+                    pc := upd s.pc t (.arNew r) }
     | .cloneS => if s.senders = 0 then none else some { s with pc := upd s.pc t .hCloneS }
     | .cloneR => if s.receivers = 0 then none else some { s with pc := upd s.pc t .hCloneR }
     | .closeS => some { s with pc := upd s.pc t .hCloseS }
@@ -480,12 +488,15 @@ def stepPoll (s : State) (t : Nat) : Option State :=
     match s.st r with
     | .success => some { s with wakes := upd s.wakes t 0, pc := upd s.pc t (.asUnl v r false) }
     | .closed => some { s with wakes := upd s.wakes t 0, pc := upd s.pc t (.asUnl v r true) }
-    | _ => some { s with wakes := upd s.wakes t 0, pc := upd s.pc t (.asRef v r) }
+    | .waiting => some { s with wakes := upd s.wakes t 0, pc := upd s.pc t (.asRef v r) }
+    | .cancelled => some { s with wakes := upd s.wakes t 0, pc := upd s.pc t (.asRef v r) }
   | .arNew r => some { s with wakes := upd s.wakes t 0, pc := upd s.pc t (.arTry r) }
   | .arPend r =>
     match s.st r with
     | .closed => some { s with wakes := upd s.wakes t 0, pc := upd s.pc t (.arUnl r) }
-    | _ => some { s with wakes := upd s.wakes t 0, pc := upd s.pc t (.arTry r) }
+    | .success => some { s with wakes := upd s.wakes t 0, pc := upd s.pc t (.arTry r) }
+    | .waiting => some { s with wakes := upd s.wakes t 0, pc := upd s.pc t (.arTry r) }
+    | .cancelled => some { s with wakes := upd s.wakes t 0, pc := upd s.pc t (.arTry r) }
   | _ => none
 
 /-- `Drop` of an unfinished future: `if is_registered { CAS(WAITING→CANCELLED); lock; unlink }`. -/
@@ -495,12 +506,16 @@ def stepDropFut (s : State) (t : Nat) : Option State :=
   | .asPend v r =>
     match s.st r with
     | .waiting => some { s with st := upd s.st r .cancelled, pc := upd s.pc t (.fdUnlS v r) }
-    | _ => some { s with pc := upd s.pc t (.fdUnlS v r) }
+    | .success => some { s with pc := upd s.pc t (.fdUnlS v r) }
+    | .closed => some { s with pc := upd s.pc t (.fdUnlS v r) }
+    | .cancelled => some { s with pc := upd s.pc t (.fdUnlS v r) }
   | .arNew _ => some { s with pc := upd s.pc t (.done .futDropped) }
   | .arPend r =>
     match s.st r with
     | .waiting => some { s with st := upd s.st r .cancelled, pc := upd s.pc t (.fdUnlR r) }
-    | _ => some { s with pc := upd s.pc t (.fdUnlR r) }
+    | .success => some { s with pc := upd s.pc t (.fdUnlR r) }
+    | .closed => some { s with pc := upd s.pc t (.fdUnlR r) }
+    | .cancelled => some { s with pc := upd s.pc t (.fdUnlR r) }
   | _ => none
 
 def stepSpurious (s : State) (t : Nat) : Option State :=
